@@ -148,8 +148,8 @@ func modelConfigs(thorough bool) []mcfg {
 		{"wide3", []string{"S", "Snull", "Kbc", "N", "Mid", "Malt", "U", "T0"}, 3, 1, false},
 		{"rq1", reqKinds("R", "Rm", "R2", "Rm2", "R3", "Rm3"), 1, 1, false},
 		{"rq2", reqKinds("R2", "Rm2"), 2, 1, false},
-		{"rq2b", append(reqKinds("R3"), "Rm3", "Rm3:1b", "Rm3:2b", "Rm3:2n", "Rm3:3b", "Rm", "Rm:1b"), 2, 2, false},
-		{"rq3", []string{"R3:1b", "R3:2a", "Rm3", "Rm3:1b", "Rm3:2n", "Rm3:3b", "S"}, 3, 1, false},
+		{"rq2b", append(reqKinds("R3"), "Rm3", "Rm3:1b", "Rm3:2b", "Rm3:2n", "Rm3:3b", "Rm", "Rm:1b"), 2, 1, false},
+		{"rq3", []string{"R3:1b", "Rm3", "Rm3:1b", "Rm3:2n", "Rm3:3b"}, 3, 1, false},
 	}
 }
 
